@@ -292,6 +292,11 @@ def main(tier, seed, only=None):
         for store in (True, False):
             for d in ("code_implies_spec", "spec_implies_code"):
                 eq.append(dict(N=5, opt=opt, store=store, flags=full, direction=d, rotation=False, retail_by=DISTINCT_WASTE))
+    # the feed round pins human consumption within a window that depends on the population (1e-4 under 10 million people, 1e-5 otherwise): both sides of that branch
+    for pop in (5e5, 9.9e6):
+        for store in (True, False):
+            for d in ("code_implies_spec", "spec_implies_code"):
+                eq.append(dict(N=5, opt="to_animals", store=store, flags=full, direction=d, rotation=False, pop=pop))
     st = [dict(N=n, opt=o, store=s, flags=f, rotation=r, retail=w) for n in (3, 14) for o in ("to_humans", "to_animals") for s in (True, False) for f in (full, core)
           for (r, w) in ((False, 6.08), (True, 24.98)) if not (r and n == 3)]
     st += [dict(N=5, opt=o, store=s, flags=full, rotation=False, retail=6.08, retail_by=DISTINCT_WASTE) for o in ("to_humans", "to_animals") for s in (True, False)]
